@@ -1,5 +1,5 @@
 (* C17 Named glob matching is consistent with the file system and with itself.
-   Property theorems only; proofs live in lib/Regex.v, proofs/NglobProofs.v, proofs/NglobTie.v. *)
+   Property theorems only; proofs live in lib/Regex.v and proofs/Nglob*.v. *)
 From Coq Require Import List NArith Bool.
 From SV Require Import lib.Bytes.
 From SV Require Import lib.Regex.
@@ -17,6 +17,16 @@ From SV Require Import proofs.NglobCorrect.
 From SV Require Import model.NglobPy.
 From SV Require Import gen.GenNglobCode.
 From SV Require Import proofs.NglobCodeTie.
+From SV Require Import model.NglobBatch.
+From SV Require Import model.NglobWide.
+From SV Require Import model.GlobTree.
+From SV Require gen.GenNglobBatch.
+From SV Require Import proofs.NglobBatchProofs.
+From SV Require Import proofs.NglobBatchTie.
+From SV Require Import proofs.NglobCands.
+From SV Require Import proofs.NglobCands2.
+From SV Require Import proofs.NglobCands3.
+From SV Require Import proofs.NglobNamedWide.
 Import ListNotations.
 Open Scope N_scope.
 
@@ -328,3 +338,232 @@ Example C17_example_update :
     /\ will_change key_eqb mv old [] [[121]] = None
   end.
 Proof. vm_compute. repeat split; try reflexivity; discriminate. Qed.
+
+(* ========================================================================================== *)
+(* (4) Where the lists handed to will_change come from: the watch-phase batch.                 *)
+(*     Watcher.record_change -> Watcher.run_once -> Workflow.process_nglob_changes             *)
+(*     -> NamedGlob.will_change.  Model: model/NglobBatch.v; the four functions are translated *)
+(*     from the Python AST on every run (gen/GenNglobBatch.v) and proved equal to the model.   *)
+(* ========================================================================================== *)
+
+(* For EVERY sequence of queue items, whatever change_is_relevant / relevant_paths_under answer:
+   after folding the items with record_change from the empty sets, a path is in `deleted` iff the
+   last item that meant something for it was a deletion (DELETED of a relevant path, or
+   DELETED_PARENT of a directory whose relevant_paths_under contains it), in `updated` iff it was
+   an UPDATED of a relevant path; the two sets are disjoint. *)
+Theorem C17_batch_last_event_wins :
+  forall (rel : bool -> str -> bool) (under : bool -> str -> list str) (items : list item),
+    let st := fold_changes rel under items ws_empty in
+    (forall p, In p (ws_deleted st) <-> last_effect rel under items p = Some false)
+    /\ (forall p, In p (ws_updated st) <-> last_effect rel under items p = Some true)
+    /\ (forall p, In p (ws_deleted st) -> ~ In p (ws_updated st))
+    /\ overlap (ws_deleted st) (ws_updated st) = false.
+Proof. exact fold_last_event_wins. Qed.
+
+(* Hence the ConsistencyError branch of process_nglob_changes ("Deleted and updated paths cannot
+   overlap") is unreachable from run_once, whatever arrives and whatever is pruned as UNCHANGED. *)
+Theorem C17_watch_commit_never_raises :
+  forall (rel : bool -> str -> bool) (under : bool -> str -> list str)
+         (K : Type) (keqb : K -> K -> bool) (regs : list (reg K)) (items : list item) (unchanged : list str),
+    watch_commit keqb rel under regs items unchanged <> None.
+Proof. exact watch_commit_never_raises. Qed.
+
+(* The hypothesis "added / deleted reflect the change for every accepted path" of (1), discharged
+   from the event fold.  [tr] lists the items of one watch phase, each with the set of existing
+   paths after it; [trace_ok] says what an item means for the file system as far as ACCEPTED paths
+   are concerned ((DELETED, p): p is gone; (UPDATED, p): p exists; (DELETED_PARENT, d): no path of
+   relevant_paths_under(d) exists; every other accepted path keeps its membership).  Remaining
+   assumptions, each named where it is used in proofs/NglobBatchProofs.v:
+     accepted_relevant  every accepted path passes change_is_relevant (true for paths without an
+                        attached file node: matches_any_glob consults this very regex);
+     under_complete     (inside trace_ok) the accepted paths that vanish with a directory are among
+                        relevant_paths_under(d);
+     pruned_existed     a path pruned as UNCHANGED that the pattern accepts was in the old scan.
+   Conclusion: the two sets never overlap, reduce(extend(old, updated), deleted) equals the scan of
+   the final path set, lists exactly its accepted paths, and will_change answers None exactly when
+   the fresh scan equals the old record.  All item sequences, no bounds. *)
+Theorem C17_watch_batch_update_equals_rescan :
+  forall (K : Type) (keqb : K -> K -> bool), (forall a b, keqb a b = true <-> a = b) ->
+  forall (mv : str -> option K) (rel : bool -> str -> bool) (under : bool -> str -> list str),
+    (forall db p, mv p <> None -> rel db p = true) ->
+  forall (fs : list str) (tr : list (item * list str)) (unchanged : list str) (old : results K),
+    trace_ok K mv under fs tr ->
+    (forall p, In p unchanged -> mv p <> None -> In p fs) ->
+    reachable K keqb mv old ->
+    results_eqb keqb old (scan keqb mv fs) = true ->
+    let st := prune unchanged (fold_changes rel under (map fst tr) ws_empty) in
+    let fs' := trace_final fs tr in
+    let upd := reduce keqb mv (extend keqb mv old (ws_updated st)) (ws_deleted st) in
+    overlap (ws_deleted st) (ws_updated st) = false
+    /\ results_eqb keqb upd (scan keqb mv fs') = true
+    /\ (forall p, In p (files upd) <-> In p fs' /\ mv p <> None)
+    /\ (will_change keqb mv old (ws_deleted st) (ws_updated st) = None
+        <-> results_eqb keqb old (scan keqb mv fs') = true).
+Proof. exact watch_batch_update_equals_rescan. Qed.
+
+(* One row of process_nglob_changes under the same hypotheses: it is rewritten (and the step made
+   pending) exactly when the fresh scan differs from the old record, and then holds a dictionary
+   equal to the fresh scan. *)
+Theorem C17_watch_commit_row :
+  forall (K : Type) (keqb : K -> K -> bool), (forall a b, keqb a b = true <-> a = b) ->
+  forall (mv : str -> option K) (rel : bool -> str -> bool) (under : bool -> str -> list str),
+    (forall db p, mv p <> None -> rel db p = true) ->
+  forall (fs : list str) (tr : list (item * list str)) (unchanged : list str) (old : results K),
+    trace_ok K mv under fs tr ->
+    (forall p, In p unchanged -> mv p <> None -> In p fs) ->
+    reachable K keqb mv old ->
+    results_eqb keqb old (scan keqb mv fs) = true ->
+    let st := prune unchanged (fold_changes rel under (map fst tr) ws_empty) in
+    forall new changed,
+      process_reg keqb (ws_deleted st) (ws_updated st) (mv, old) = ((mv, new), changed) ->
+      (changed = false <-> results_eqb keqb old (scan keqb mv (trace_final fs tr)) = true)
+      /\ (changed = true -> results_eqb keqb new (scan keqb mv (trace_final fs tr)) = true)
+      /\ (changed = false -> new = old).
+Proof. exact watch_commit_row. Qed.
+
+(* startup.rescan_nglobs does not use the update law at all: it persists a FRESH scan, exactly
+   when the recorded dictionary differs from it (it compares file sets, which for well-formed
+   dictionaries is the same as comparing the dictionaries). *)
+Theorem C17_startup_rescan_persists_fresh_scan :
+  forall (K : Type) (keqb : K -> K -> bool), (forall a b, keqb a b = true <-> a = b) ->
+  forall (mv : str -> option K) (old : results K) (cands : list str),
+    wf_results K mv old ->
+    (rescan1 keqb mv old cands = None <-> results_eqb keqb old (scan keqb mv cands) = true)
+    /\ (forall new, rescan1 keqb mv old cands = Some new -> new = scan keqb mv cands).
+Proof. exact rescan1_spec. Qed.
+
+(* The tie by translation for this layer: for ALL inputs the translated record_change,
+   will_change, process_nglob_changes and the per-registration body of rescan_nglobs are the model
+   functions of the theorems above. *)
+Theorem C17_batch_code_equals_model :
+  (forall rel under db st ev,
+      GenNglobBatch.gen_record_change rel under db st ev = record_change rel under db st ev)
+  /\ (forall (K : Type) (keqb : K -> K -> bool) (mv : str -> option K) r deleted added,
+        GenNglobBatch.gen_will_change keqb mv r deleted added = will_change keqb mv r deleted added)
+  /\ (forall (K : Type) (keqb : K -> K -> bool) (regs : list (reg K)) deleted updated,
+        GenNglobBatch.gen_process_nglob_changes keqb regs deleted updated
+        = process_nglob_changes keqb regs deleted updated)
+  /\ (forall (K : Type) (keqb : K -> K -> bool) (mv : str -> option K) old cands,
+        GenNglobBatch.gen_rescan1 keqb mv old cands = rescan1 keqb mv old cands).
+Proof. exact batch_code_equals_model. Qed.
+
+(* Non-vacuity with the matcher of `sub/${*x}`: deleted then re-created (ends up in `updated`
+   only, nothing changes); a file replaced by a directory of the same name (both spellings have the
+   key x = "item"; exactly the deleted spelling goes away); DELETED_PARENT of `sub` after an
+   UPDATED of sub/a; and the first two as instances of the trace semantics. *)
+Example C17_example_batch :
+  bx_run bx_no_under [bx_a; bx_b; bx_other] [(false, EvDeleted bx_a); (false, EvUpdated bx_a)]
+    = ([], [bx_a], None, [bx_a; bx_b])
+  /\ bx_run bx_no_under [bx_item; bx_keepd] [(false, EvDeleted bx_item); (false, EvUpdated bx_itemd)]
+     = ([bx_item], [bx_itemd], Some (scan key_eqb bx_mv [bx_itemd; bx_keepd]), [bx_itemd; bx_keepd])
+  /\ bx_run bx_under [bx_a; bx_keepd; bx_other]
+            [(true, EvUpdated bx_a); (false, EvDeletedParent bx_sub); (false, EvDeleted bx_subd)]
+     = ([bx_a; bx_keepd], [], Some [], [])
+  /\ trace_ok key bx_mv bx_no_under [bx_a; bx_b; bx_other]
+           [((false, EvDeleted bx_a), [bx_b; bx_other]); ((false, EvUpdated bx_a), [bx_b; bx_other; bx_a])].
+Proof.
+  split; [exact batch_deleted_then_recreated|]. split; [exact (proj1 (proj2 (proj2 batch_file_replaced_by_directory)))|].
+  split; [exact batch_deleted_parent|exact (proj1 batch_traces_ok)].
+Qed.
+
+(* ========================================================================================== *)
+(* (5) Wider fragments.                                                                       *)
+(* ========================================================================================== *)
+
+(* (3) extended to F2 = F1 plus back-references (a name may occur again; a back-reference counts as
+   star-like for the adjacency rule and is not the last token; both restrictions are tight, see
+   f2_restrictions_tight): on F2 the compiled regex IS the reference semantics on every canonical path. *)
+Theorem C17_compile_regex_correct_f2_partial :
+  forall (p : str) (subs : subs_t) (ps : list re) (s : str),
+    f2 p subs = true -> conv_regex p subs = COk ps -> wf_path s = true ->
+    nglob_ref false p subs s = Some (accepts (rcat ps) s).
+Proof. exact compile_regex_correct_f2_partial. Qed.
+
+(* "Replacing an anonymous `*` by a named wildcard never changes which paths match", at the level
+   of the COMPILER, for EVERY pattern (every position of `**` and `**/`, negated classes, user
+   sub-patterns, repeated OTHER names), every substitution dictionary and EVERY string, provided the
+   replaced `*` takes no part in the merging rules: the token before it is neither `*` nor `**`, the
+   token after it none of `*`, `**`, `**/`; the new name is fresh and has no sub-pattern. *)
+Theorem C17_named_equals_star_nonadjacent_partial :
+  forall (p1 p2 : str) (subs : subs_t) (pre post : list tok) (n : str) (ps1 ps2 : list re),
+    tokenize p1 = pre ++ TStar :: post -> tokenize p2 = pre ++ TName n :: post ->
+    n <> [] -> ~ In (TName n) (pre ++ post) -> subs_get n subs = None ->
+    star_before_ok pre = true -> star_after_ok post = true ->
+    conv_regex p1 subs = COk ps1 -> conv_regex p2 subs = COk ps2 ->
+    forall s, accepts (rcat ps2) s = accepts (rcat ps1) s.
+Proof. exact named_equals_star_nonadjacent_accepts. Qed.
+
+(* The side conditions cannot be dropped: next to another `*` the statement is false of the code
+   (`d/***` rejects d/ but `d/${*n}**` and `d/**${*n}` accept it: empty last component, D5d). *)
+Theorem C17_named_equals_star_adjacent_refuted : ~ named_equals_star_full.
+Proof. exact named_equals_star_full_refuted. Qed.
+
+(* Candidates of NamedGlob.glob().  glob() only looks at what glob.iglob returns for the translated
+   plain pattern, so (1') needs: every existing accepted path is a candidate (complete) and every
+   candidate exists and is accepted (sound).  [glob_paths t gp] is model/GlobSem.v (CPython 3.12
+   glob with recursive=True, include_hidden=True, plus the normalisation of glob()), [all_paths t]
+   the existing paths of the finite tree [t], directories spelled with a trailing separator.
+
+   G1  = F1 without classes and without glob meta characters in literal text.
+   G1S = G1, pattern does not end with a separator, every component of the translated pattern is a
+         legal name.
+   G2  = `**` alone or a literal directory prefix followed by the trailing `**`.
+   Complete on G1 and on G2, for EVERY well-formed finite tree (hidden entries, empty directories,
+   any nesting).  Sound on G1S, except for the directory spelling "name/" when the last token is
+   not star-like: that is finding D5b, and the exception is exactly its extent. *)
+Theorem C17_glob_candidates_complete_partial :
+  forall (t : list entry) (p : str) (subs : subs_t) (ps : list re) (gp q : str),
+    wf_tree t = true -> g1 p subs = true ->
+    conv_regex p subs = COk ps -> conv_glob p subs = COk gp ->
+    In q (all_paths t) -> accepts (rcat ps) q = true -> In q (glob_paths t gp).
+Proof. exact glob_candidates_complete_partial. Qed.
+
+Theorem C17_glob_candidates_complete_recursive_partial :
+  forall (t : list entry) (p : str) (subs : subs_t) (ps : list re) (gp q : str),
+    wf_tree t = true -> g2 p = true ->
+    conv_regex p subs = COk ps -> conv_glob p subs = COk gp ->
+    In q (all_paths t) -> accepts (rcat ps) q = true -> In q (glob_paths t gp).
+Proof. exact glob_candidates_complete_rec_partial. Qed.
+
+Theorem C17_glob_candidates_sound_partial :
+  forall (t : list entry) (p : str) (subs : subs_t) (ps : list re) (gp q : str),
+    wf_tree t = true -> g1s p subs = true ->
+    conv_regex p subs = COk ps -> conv_glob p subs = COk gp ->
+    In q (glob_paths t gp) ->
+    In q (all_paths t)
+    /\ (ends_sep q = false \/ last_starlike (tokenize p) = true -> accepts (rcat ps) q = true).
+Proof. exact glob_candidates_sound_partial. Qed.
+
+(* clause 2 of C17_full on G1S: recorded candidates = existing accepted paths *)
+Theorem C17_glob_candidates_exact_partial :
+  forall (t : list entry) (p : str) (subs : subs_t) (ps : list re) (gp q : str),
+    wf_tree t = true -> g1s p subs = true ->
+    conv_regex p subs = COk ps -> conv_glob p subs = COk gp ->
+    ends_sep q = false \/ last_starlike (tokenize p) = true ->
+    (In q (glob_paths t gp) <-> In q (all_paths t) /\ accepts (rcat ps) q = true).
+Proof. exact glob_candidates_exact_partial. Qed.
+
+(* Completeness is FALSE on F1 (classes): `a[!/]b` accepts the existing file axb (and both
+   reference semantics agree) but glob.glob splits the translated pattern at the separator inside the
+   brackets and returns nothing; and `[a<newline>]` is literal text for RE_ANY_WILD but a class for
+   fnmatch.  Two mechanisms that are none of D5a..f; replayed on the implementation by the oracle. *)
+Theorem C17_class_with_separator_candidates_incomplete_refuted :
+  exists t p subs path,
+    f1 p subs = true /\ conv_glob p subs = COk p
+    /\ recorded t p subs = Some [] /\ accepted_existing t p subs = Some [path] /\ std_glob t p subs = Some []
+    /\ nglob_ref false p subs path = Some true /\ nglob_ref true p subs path = Some true.
+Proof. exact class_with_separator_candidates_incomplete_refuted. Qed.
+
+Theorem C17_bracket_newline_candidates_incomplete_refuted :
+  exists t p subs path,
+    conv_glob p subs = COk p
+    /\ recorded t p subs = Some [] /\ accepted_existing t p subs = Some [path]
+    /\ std_glob t p subs = Some [[97]].
+Proof. exact bracket_newline_candidates_incomplete_refuted. Qed.
+
+Example C17_example_candidates :
+  wf_tree ex_tree = true /\ g1s ex_pat1 [] = true /\ g1s ex_pat2 [] = true /\ g2 ex_pat4 = true
+  /\ last_starlike (tokenize ex_pat1) = false /\ last_starlike (tokenize ex_pat2) = true
+  /\ glob_paths ex_tree [115;114;99;47;42]
+     = [[115;114;99;47;97;46;99]; [115;114;99;47;115;117;98;47]; [115;114;99;47;46;104;105;100;46;99]].
+Proof. vm_compute. repeat split. Qed.
